@@ -243,6 +243,41 @@ def oracle(case):
             f"voronoi weights {wv.tolist()} != fraction of cells nearest to "
             f"each point {(cnt / len(axy)).tolist()} (ties to the lowest "
             f"index); points {pts.tolist()}")
+    # the same catchment object with another area, then the same calls again
+    if len(acells) >= 2:
+        keep = acells[::2].copy()
+        ca._idxcells_area = keep
+        ca._idxcells_area_filled = keep
+        wv2 = voronoi(ca, pts.copy())
+        kxy = fd.cell2coord(keep)
+        cnt2 = np.zeros(len(pts))
+        for (x, y) in kxy:
+            d2 = (pts[:, 0] - x) ** 2 + (pts[:, 1] - y) ** 2
+            cnt2[int(np.argmin(d2))] += 1
+        if not np.allclose(wv2, cnt2 / len(kxy), atol=1e-12, rtol=0):
+            raise Violation("voronoi on the same catchment object after its "
+                            "area changed does not follow the new area")
+        try:
+            ag2, idx2, w2 = ca.intersect(g)
+            tot2 = float(np.sum(w2)) / af
+            s2 = c2 = 0
+            for (x, y) in kxy:
+                u, v = (x - gx) / C, (y - gy) / C
+                if 0 <= u <= gnc and 0 <= v <= gnr:
+                    c2 += 1
+                    if 0 < u < gnc and 0 < v < gnr and \
+                            u != math.floor(u) and v != math.floor(v):
+                        s2 += 1
+            if not (s2 - 1e-9 <= tot2 <= c2 + 1e-9):
+                raise Violation(
+                    "intersect on the same catchment object after its area "
+                    f"changed: total {tot2!r} fine cells, expected between "
+                    f"{s2} and {c2}")
+        except Violation:
+            raise
+        except Exception:
+            pass
+        labels.append("second-call-after-area-change")
     if tie:
         labels.append("voronoi:tie")
     if len(axy) > len(pts):
